@@ -37,11 +37,11 @@ const (
 )
 
 type execSpec struct {
-	Wrapper string `json:"wrapper"` // bare retry timeout-fires hedge fallback bh-outside-retry inner-full (a second, always full bulkhead inside: the admitted execution ends in the inner bulkhead's ErrFull) fn-errfull (the function itself returns an error that wraps ErrFull)
-	Async   bool   `json:"async"`
-	Role    string `json:"role"`     // holder: parks in the function on a gate | burst: returns at once | waiter: submitted while the bulkhead is full
-	FailN   int    `json:"fail_n"`   // the first n invocations of this execution return errX
-	CancelMe bool  `json:"cancel_me"` // an action cancels this execution's context (while it waits for a permit or holds one)
+	Wrapper  string `json:"wrapper"` // bare retry timeout-fires hedge fallback bh-outside-retry inner-full (a second, always full bulkhead inside: the admitted execution ends in the inner bulkhead's ErrFull) fn-errfull (the function itself returns an error that wraps ErrFull)
+	Async    bool   `json:"async"`
+	Role     string `json:"role"`      // holder: parks in the function on a gate | burst: returns at once | waiter: submitted while the bulkhead is full
+	FailN    int    `json:"fail_n"`    // the first n invocations of this execution return errX
+	CancelMe bool   `json:"cancel_me"` // an action cancels this execution's context (while it waits for a permit or holds one)
 }
 
 type scenario struct {
@@ -362,7 +362,7 @@ func genScenario(t *rapid.T) scenario {
 		sc.Execs = append(sc.Execs, sp)
 	}
 	extra := rapid.IntRange(0, 6).Draw(t, "standaloneActions")
-	sc.Order = rapid.Permutation(seq(g + extra)).Draw(t, "order")
+	sc.Order = rapid.Permutation(seq(g+extra)).Draw(t, "order")
 	sc.Timed = rapid.Bool().Draw(t, "timed")
 	return sc
 }
